@@ -18,6 +18,8 @@ type Op struct {
 	Kv int    `json:"kv,omitempty"` // variant of the key class
 	V  int    `json:"v,omitempty"`
 	It int    `json:"it,omitempty"`
+	// foreach: Body[k] = ops executed inside the callback at its k-th invocation
+	Body [][]Op `json:"body,omitempty"`
 }
 
 type Case struct {
@@ -216,7 +218,11 @@ func genCase(r *vh.Rng) Case {
 		if nIt > 0 {
 			nextW = 30
 		}
-		switch r.Pick(30, 8, 8, 18, clearW, itW, nextW, 4) {
+		feW := 0
+		if (c.Surface == "map" || c.Surface == "set") && nIt < 3 {
+			feW = 3
+		}
+		switch r.Pick(30, 8, 8, 18, clearW, itW, nextW, 4, feW) {
 		case 0:
 			op = Op{O: "set", K: k, Kv: kv, V: r.Intn(1000)}
 		case 1:
@@ -234,6 +240,27 @@ func genCase(r *vh.Rng) Case {
 			op = Op{O: "next", It: r.Intn(nIt)}
 		case 7:
 			op = Op{O: "size"}
+		case 8:
+			op = Op{O: "foreach"}
+			nIt++
+			slots := 1 + r.Intn(6)
+			for sl := 0; sl < slots; sl++ {
+				var body []Op
+				for b := r.Intn(4); b > 0; b-- {
+					kk := pool[r.Intn(poolSize)]
+					switch r.Pick(5, 5, 1, 1) {
+					case 0:
+						body = append(body, Op{O: "set", K: kk, Kv: r.Intn(9), V: r.Intn(1000)})
+					case 1:
+						body = append(body, Op{O: "del", K: kk, Kv: r.Intn(9)})
+					case 2:
+						body = append(body, Op{O: "clear"})
+					case 3:
+						body = append(body, Op{O: "has", K: kk})
+					}
+				}
+				op.Body = append(op.Body, body)
+			}
 		}
 		c.Ops = append(c.Ops, op)
 	}
@@ -449,8 +476,53 @@ func runCase(c Case, seed uint64) vh.Record {
 		obs = append(obs, o)
 		return ok
 	}
-	for _, op := range c.Ops {
+	feIters := map[int]bool{}
+	var execOp func(op Op)
+	execOp = func(op Op) {
 		switch op.O {
+		case "foreach":
+			js, ok := s.(*jsS)
+			if !ok {
+				return
+			}
+			id := nIters
+			nIters++
+			feIters[id] = true
+			js.its = append(js.its, nil)
+			js.kinds = append(js.kinds, 0)
+			ops = append(ops, "ONewIter")
+			outs = append(outs, fmt.Sprintf("(RN %d)", id))
+			call := 0
+			wasLive := liveIter
+			liveIter = true
+			cb := func(fc goja.FunctionCall) goja.Value {
+				ops = append(ops, fmt.Sprintf("(ONext %d)", id))
+				var o string
+				if isSet {
+					o = emitEntry(fc.Argument(1), nil, true, true)
+				} else {
+					o = emitEntry(fc.Argument(1), fc.Argument(0), true, true)
+				}
+				outs = append(outs, o)
+				obs = append(obs, o)
+				if call < len(op.Body) {
+					for _, sub := range op.Body[call] {
+						if sub.O != "foreach" && sub.O != "iter" && sub.O != "next" {
+							execOp(sub)
+						}
+					}
+				}
+				call++
+				if call > 300 {
+					panic(e.rt.NewTypeError("forEach does not terminate"))
+				}
+				return goja.Undefined()
+			}
+			js.call(js.obj, "forEach", e.rt.ToValue(cb))
+			ops = append(ops, fmt.Sprintf("(ONext %d)", id))
+			outs = append(outs, "REnd")
+			liveIter = wasLive
+			tags["forEach"] = true
 		case "set":
 			k := e.key(c, op)
 			val := op.V
@@ -466,7 +538,7 @@ func runCase(c Case, seed uint64) vh.Record {
 		case "get":
 			v, ok := s.get(e.key(c, op))
 			if !ok {
-				continue
+				return
 			}
 			ops = append(ops, fmt.Sprintf("(OGet %s)", coqKey(op.K%nClasses)))
 			if v == nil {
@@ -488,7 +560,7 @@ func runCase(c Case, seed uint64) vh.Record {
 			}
 		case "clear":
 			if !s.clear() {
-				continue
+				return
 			}
 			ops = append(ops, "OClear")
 			outs = append(outs, "RU")
@@ -498,15 +570,15 @@ func runCase(c Case, seed uint64) vh.Record {
 			}
 		case "iter":
 			if s.iter() < 0 {
-				continue
+				return
 			}
 			ops = append(ops, "ONewIter")
 			outs = append(outs, fmt.Sprintf("(RN %d)", nIters))
 			nIters++
 			liveIter = true
 		case "next":
-			if op.It >= nIters {
-				continue
+			if op.It >= nIters || feIters[op.It] {
+				return
 			}
 			doNext(op.It)
 		case "size":
@@ -519,8 +591,14 @@ func runCase(c Case, seed uint64) vh.Record {
 			}
 		}
 	}
+	for _, op := range c.Ops {
+		execOp(op)
+	}
 	// final dump: drain every live iterator, then a fresh full iteration (or the ownKeys snapshot)
 	for it := 0; it < nIters; it++ {
+		if feIters[it] {
+			continue
+		}
 		for i := 0; i < 200 && doNext(it); i++ {
 		}
 		doNext(it) // a finished iterator stays finished
